@@ -144,9 +144,22 @@ class C07:
             hn = [n for n in g.nodes if n.kind == "except" and n.ast is h]
             body_ids = {id(x) for b in h.body for x in ast.walk(b)}
             escapes = g.reach([n.id for n in hn], lambda m: cfg_root(m) is not None and id(cfg_root(m)) not in body_ids and m.kind not in ("join", "except"), follow=NORMAL)
+            # re-raise when there is no info, or when the hashes DIFFER (the equality literal holds with polarity False) - never when they are equal
+            iname = None
+            for x in ast.walk(ast.Module(body=list(h.body), type_ignores=[])):
+                if isinstance(x, ast.Assign) and isinstance(x.targets[0], ast.Name) and any(x.value is c for c in info):
+                    iname = x.targets[0].id
             guarded = bool(raises) and all(
-                any(pol is False and "info" in txt or pol and ("!=" in txt or "==" in txt) and "hash" in txt or (not pol and "==" in txt and "hash" in txt)
-                    for (txt, pol) in ctx.facts_at(f, r)) for r in raises)
+                any((iname is not None and txt == iname and pol is False) or (pol is False and "==" in txt and "hash" in txt) for (txt, pol) in ctx.facts_at(f, r))
+                and not any(pol is True and "==" in txt and "hash" in txt for (txt, pol) in ctx.facts_at(f, r)) for r in raises)
+            kinds = set()
+            for r in raises:
+                for (txt, pol) in ctx.facts_at(f, r):
+                    if iname is not None and txt == iname and pol is False:
+                        kinds.add("no-info")
+                    if pol is False and "==" in txt and "hash" in txt:
+                        kinds.add("hash-differs")
+            guarded = guarded and kinds == {"no-info", "hash-differs"}
             same_prov = bool(info) and bool(hd) and all(ast.unparse(c.func.value) == ast.unparse(info[0].func.value) for c in hd)
             rep.check("C07.R4", "_create_synced|handler", ctx.line(f, h), bool(info) and bool(hd) and guarded and escapes is not None and same_prov,
                       "info_path + hash_data by the same provider; re-raise only on missing info / different hash; adoption path exists",
